@@ -5,11 +5,12 @@ Side conditions spanned (firing side and near miss for each):
   argument position / shared with another sign / a fact among the rules / mixed head kinds);
 * head kinds of the defining rule: plain, choice, choice with element condition (global and local variables),
   several elements, disjunction (with and without conditions), #sum / #count head aggregates, and the same
-  predicate occurring TWICE in one head (element conditions must be intersected, not united);
+  predicate occurring TWICE in one head (the element conditions must be intersected, not united);
 * argument maps: permuted, repeated in body, repeated in head, integer / symbolic constants, function terms,
   arity 3, arity 0, arithmetic terms introduced by inlining `Y = X+1`;
 * implication chains of length 2-3 with every sign at every link (closure only through positive links), probed with
-  the dominated literal positive / not / not not;
+  the dominated literal positive / not / not not; all links are choice rules, so that nothing is implied "backwards"
+  by completion and every near miss is a real one; composition of argument maps along a chain;
 * sign of the dominating literal (a negative literal never dominates) and of the dominated literal (must be equal to
   the sign in the defining rule);
 * same-predicate pairs: equal arguments, `_`, swapped, repeated, other variable, every sign combination, negative lhs;
@@ -20,8 +21,9 @@ Side conditions spanned (firing side and near miss for each):
 * `#true` / `#false` (plain, `not`, `not not`) in bodies, constraints, choice rules, weak constraints, #minimize,
   conditions, heads of conditional literals, aggregate elements, as the only literal, in rule heads;
 * recursion / loops through the dominating predicate.
-Base facts always come from input predicates (dom/1, q/1, r/2, e/1, ...), so the instance generator makes the
-supposedly implied atom false in some instances.
+Base facts always come from input predicates (dom/1, q/1, r/2, e/2, z/1, ...), so the instance generator makes the
+supposedly implied atom false in some instances.  The conditional-literal scope uses `a(Z) :- z(Z), e(Z,X) : ...`
+(a sparse binary head) so that a wrongly deleted condition literal is observable.
 """
 import itertools
 
@@ -37,6 +39,11 @@ def _prog(out, stms, tag, inn=None):
 
 def _head(hv):
     return f"a({hv})" if hv else "a"
+
+
+def _cond(lits, var="X"):
+    """use rule with the literals in the condition of a conditional literal"""
+    return f"a(Z) :- z(Z), e(Z,{var}) : {lits}."
 
 
 # ---------------------------------------------------------------------------------------------------------------
@@ -66,50 +73,53 @@ def _isect(out):
     uses = [
         ("body", ["a(X,Y) :- b(X,Y), dom(X)."]),
         ("weak", ["{ sel(Y) } :- q(Y).", ":~ b(X,Y), dom(X), sel(Y). [1@0,X,Y]"]),
-        ("cond", ["a :- e(X) : b(X,Y), dom(X)."]),
+        ("cond", [_cond("b(X,Y), dom(X)")]),
         ("count", ["a(N) :- N = #count { X,Y : b(X,Y), dom(X) }."]),
     ]
     for (dn, share, ds), (un, us) in itertools.product(defs, uses):
-        _prog(out, ds + us, f"isect-{'shared' if share else 'notshared'}:{dn}/{un}")
+        if dn in ("two-mixedheads-not", "three-notshared") and un in ("weak", "count"):
+            continue
+        _prog(out, ds + us, f"isect-{'shared' if share else 'notshared'}")
 
 
 # ---------------------------------------------------------------------------------------------------------------
 def _heads(out):
     """F2: kind of head of the rule that defines b/2 and place (element condition / body) of dom(X)"""
     kinds = [
-        ("plain", ["b(X,Y) :- r(X,Y), dom(X)."]),
-        ("choice-body", ["{ b(X,Y) } :- r(X,Y), dom(X)."]),
-        ("choice-cond", ["{ b(X,Y) : dom(X) } :- r(X,Y)."]),
-        ("choice-cond-local", ["{ b(X,Y) : r(X,Y), dom(X) }."]),
-        ("choice2-body", ["{ b(X,Y); g(X,Y) } :- r(X,Y), dom(X)."]),
-        ("choice2-cond", ["{ b(X,Y) : dom(X); g(X,Y) : q(Y) } :- r(X,Y)."]),
-        ("choice2-cond-other", ["{ g(X,Y) : dom(X); b(X,Y) : q(Y) } :- r(X,Y)."]),
-        ("disj-body", ["b(X,Y); g(X,Y) :- r(X,Y), dom(X)."]),
-        ("disj-cond", ["b(X,Y) : dom(X); g(X,Y) : q(Y) :- r(X,Y)."]),
-        ("disj-cond-other", ["g(X,Y) : dom(X); b(X,Y) : q(Y) :- r(X,Y)."]),
-        ("sum-cond", ["#sum { 1,X,Y : b(X,Y) : r(X,Y), dom(X) } 2."]),
-        ("sum-body", ["#sum { 1 : b(X,Y); 1 : g(X,Y) } 1 :- r(X,Y), dom(X)."]),
-        ("count-cond", ["#count { X,Y : b(X,Y) : r(X,Y), dom(X); X,Y : g(X,Y) : r(X,Y), q(X) } 2."]),
-        ("twice-choice-cond", ["{ b(X,Y) : r(X,Y), dom(X); b(X,Y) : r(X,Y), q(X) }."]),
-        ("twice-choice-body", ["{ b(X,Y); b(Y,X) } :- r(X,Y), dom(X)."]),
-        ("twice-disj-body", ["b(X,Y); b(Y,X) :- r(X,Y), dom(X)."]),
-        ("twice-disj-cond", ["b(X,Y) : dom(X); b(Y,X) : q(X) :- r(X,Y)."]),
-        ("twice-sum-cond", ["#sum { 1,X,Y : b(X,Y) : r(X,Y), dom(X); 1,X,Y,n : b(X,Y) : r(Y,X), q(X) } 3."]),
-        ("twice-same-cond", ["{ b(X,Y) : r(X,Y), dom(X); b(Y,X) : r(Y,X), dom(Y) }."]),
+        ("single", ["b(X,Y) :- r(X,Y), dom(X)."]),
+        ("single", ["{ b(X,Y) } :- r(X,Y), dom(X)."]),
+        ("single", ["{ b(X,Y) : dom(X) } :- r(X,Y)."]),
+        ("single", ["{ b(X,Y) : r(X,Y), dom(X) }."]),
+        ("multi", ["{ b(X,Y) : dom(X); g(X,Y) : q(Y) } :- r(X,Y)."]),
+        ("multi-other", ["{ g(X,Y) : dom(X); b(X,Y) : q(Y) } :- r(X,Y)."]),
+        ("multi", ["b(X,Y); g(X,Y) :- r(X,Y), dom(X)."]),
+        ("multi", ["b(X,Y) : dom(X); g(X,Y) : q(Y) :- r(X,Y)."]),
+        ("multi-other", ["g(X,Y) : dom(X); b(X,Y) : q(Y) :- r(X,Y)."]),
+        ("aggregate", ["#sum { 1,X,Y : b(X,Y) : r(X,Y), dom(X) } 2."]),
+        ("aggregate", ["#sum { 1 : b(X,Y); 1 : g(X,Y) } 1 :- r(X,Y), dom(X)."]),
+        ("aggregate", ["#count { X,Y : b(X,Y) : r(X,Y), dom(X); X,Y : g(X,Y) : r(X,Y), q(X) } 2."]),
+        ("twice", ["{ b(X,Y) : r(X,Y), dom(X); b(X,Y) : r(X,Y), q(X) }."]),
+        ("twice", ["{ b(X,Y); b(Y,X) } :- r(X,Y), dom(X)."]),
+        ("twice", ["b(X,Y); b(Y,X) :- r(X,Y), dom(X)."]),
+        ("twice", ["b(X,Y) : dom(X); b(Y,X) : q(X) :- r(X,Y)."]),
+        ("twice", ["#sum { 1,X,Y : b(X,Y) : r(X,Y), dom(X); 1,X,Y,n : b(X,Y) : r(Y,X), q(X) } 3."]),
+        ("twice-same", ["{ b(X,Y) : r(X,Y), dom(X); b(Y,X) : r(Y,X), dom(Y) }."]),
     ]
     uses = [
         ("body", "a(X,Y) :- b(X,Y), dom(X)."),
-        ("body-otherarg", "a(X,Y) :- b(X,Y), dom(Y)."),
-        ("cond", "a :- e(X) : b(X,Y), dom(X)."),
+        ("cond", _cond("b(X,Y), dom(X)")),
         ("sum", "a(S) :- S = #sum { 1,X,Y : b(X,Y), dom(X) }."),
+        ("body-otherarg", "a(X,Y) :- b(X,Y), dom(Y)."),
     ]
     for (kn, ks), (un, u) in itertools.product(kinds, uses):
-        _prog(out, ks + [u], f"head-{kn}/{un}")
+        if un == "body-otherarg" and not (kn.startswith("twice") or ks[0].startswith("b(X,Y) :-")):
+            continue
+        _prog(out, ks + [u], f"head-{kn}")
 
 
 # ---------------------------------------------------------------------------------------------------------------
 def _argmaps(out):
-    """F3: argument positions: definition(s) of b, then (body of the use rule, head variables, label)"""
+    """F3: argument positions: definition(s) of b, then (body of the use rule, head variables)"""
     groups = [
         (
             "permuted",
@@ -144,9 +154,9 @@ def _argmaps(out):
             ["b(X,1) :- dom(X), q(1)."],
             [
                 ("b(X,Y), q(Y)", "X,Y"),
-                ("b(X,Y), q(1)", "X,Y"),
-                ("b(X,1), q(1)", "X"),
                 ("b(X,Y), q(X)", "X,Y"),
+                ("b(X,1), q(1)", "X"),
+                ("b(X,Y), q(1)", "X,Y"),
                 ("b(X,2), q(2)", "X"),
                 ("b(X,Y), dom(X), q(2)", "X,Y"),
             ],
@@ -164,17 +174,17 @@ def _argmaps(out):
         (
             "const-sym",
             ["b(X,k) :- dom(X), q(k)."],
-            [("b(X,Y), q(Y)", "X,Y"), ("b(X,k), q(k)", "X"), ("b(X,Y), q(k)", "X,Y"), ("b(X,Y), q(X)", "X,Y")],
+            [("b(X,Y), q(Y)", "X,Y"), ("b(X,Y), q(X)", "X,Y"), ("b(X,k), q(k)", "X"), ("b(X,Y), q(k)", "X,Y")],
         ),
         (
             "function-head",
             ["h(f(X)) :- dom(X), q(X).", "b(f(X),Y) :- r(X,Y), h(f(X))."],
             [
                 ("b(Z,Y), h(Z)", "Z,Y"),
+                ("b(f(X),Y), h(f(Y))", "X,Y"),
                 ("b(f(X),Y), h(f(X))", "X,Y"),
                 ("b(f(X),Y), r(X,Y)", "X,Y"),
                 ("b(f(X),Y), dom(X)", "X,Y"),
-                ("b(f(X),Y), h(f(Y))", "X,Y"),
             ],
         ),
         (
@@ -189,13 +199,14 @@ def _argmaps(out):
         ),
         (
             "arity3",
-            ["b(X,Y,Z) :- r(X,Y), r(Y,Z), r(Z,X)."],
+            ["b(X,Y,Z) :- r(X,Y), s(Z,X)."],
             [
-                ("b(X,Y,Z), r(Z,X)", "X,Y,Z"),
-                ("b(X,Y,Z), r(X,Z)", "X,Y,Z"),
-                ("b(X,Y,Z), r(Y,Z), r(Z,Y)", "X,Y,Z"),
-                ("b(X,Y,X), r(X,X)", "X,Y"),
-                ("b(X,Y,_), r(Y,_)", "X,Y"),
+                ("b(X,Y,Z), s(Z,X)", "X,Y,Z"),
+                ("b(X,Y,Z), s(X,Z)", "X,Y,Z"),
+                ("b(X,Y,Z), r(X,Y), s(Z,Y)", "X,Y,Z"),
+                ("b(X,Y,X), s(X,X)", "X,Y"),
+                ("b(X,Y,_), r(X,_)", "X,Y"),
+                ("b(X,Y,Z), r(Y,X)", "X,Y,Z"),
             ],
         ),
         ("arity0-body", ["b(X) :- c, dom(X)."], [("b(X), c", "X"), ("b(X), not c", "X"), ("b(X), c, dom(X)", "X")]),
@@ -209,6 +220,7 @@ def _argmaps(out):
             ["b(X,Y) :- dom(X), Y = X+1, q(Y)."],
             [
                 ("b(X,Y), q(Y)", "X,Y"),
+                ("b(X,Y), q(X)", "X,Y"),
                 ("b(X,Y), q(X+1)", "X,Y"),
                 ("b(X,Y), dom(X), dom(Y)", "X,Y"),
                 ("b(X,Y), Z = X+1, q(Z)", "X,Y,Z"),
@@ -218,42 +230,50 @@ def _argmaps(out):
     ]
     for gn, ds, uses in groups:
         for i, (body, hv) in enumerate(uses):
-            _prog(out, ds + [f"{_head(hv)} :- {body}."], f"args-{gn}/body")
-            if i < 2:
-                lits = body.split(", ")
-                _prog(out, ds + [f"a :- e({hv.split(',')[0] if hv else 'z'}) : {', '.join(lits)}."], f"args-{gn}/cond")
+            _prog(out, ds + [f"{_head(hv)} :- {body}."], f"args-{gn}")
+            if i < 2 and hv and not gn.startswith("arity0"):
+                _prog(out, ds + [_cond(body, hv.split(",")[0])], f"args-{gn}")
 
 
 # ---------------------------------------------------------------------------------------------------------------
 def _chains(out):
-    """F4: chains p1 <- p2 <- p3 (<- p4) with a sign at every link; use rules probe p1 against pk with all 3 signs"""
+    """F4: chains p1 <- p2 <- p3 (<- p4), a sign at every link; use rules probe p1 against pk with all 3 signs"""
 
-    def build(sv, target, choice_base):
-        n = len(sv)
+    def build(sv, target):
         stms = []
         for i, s in enumerate(sv):
-            stms.append(f"p{i + 1}(X) :- dom(X), {SIGNS[s]}p{i + 2}(X).")
-        if choice_base:
-            stms.append(f"{{ p{n + 1}(X) }} :- dom(X).")
+            stms.append(f"{{ p{i + 1}(X) }} :- dom(X), {SIGNS[s]}p{i + 2}(X).")
         for j, s in enumerate("pnd"):
             stms.append(f"u{j + 1}(X) :- p1(X), {SIGNS[s]}p{target}(X).")
         return stms
 
     # length 2, direct link p1 -> p2 (always a mapping with the sign of the link)
     for s1 in "pnd":
-        _prog(out, build((s1, "p"), 2, False), f"chain2-direct:{s1}p")
+        _prog(out, build((s1, "p"), 2), "chain-direct")
     # length 2, end of the chain
     for s1, s2 in itertools.product("pnd", repeat=2):
-        _prog(out, build((s1, s2), 3, True), f"chain2-{'pos' if s1 == 'p' else 'neg'}link:{s1}{s2}")
+        _prog(out, build((s1, s2), 3), f"chain-{'pos' if s1 == 'p' else 'neg'}link")
     # length 3, end of the chain
     for s1, s2, s3 in itertools.product("pn", "pnd", "pnd"):
         if s2 == "d" and s3 == "d":
             continue
         ok = s1 == "p" and s2 == "p"
-        _prog(out, build((s1, s2, s3), 4, False), f"chain3-{'pos' if ok else 'neg'}link:{s1}{s2}{s3}")
+        _prog(out, build((s1, s2, s3), 4), f"chain-{'pos' if ok else 'neg'}link")
     # length 3, middle of the chain
     for s1, s2 in itertools.product("pnd", repeat=2):
-        _prog(out, build((s1, s2, "p"), 3, False), f"chain3-mid-{'pos' if s1 == 'p' else 'neg'}link:{s1}{s2}p")
+        _prog(out, build((s1, s2, "p"), 3), f"chain-{'pos' if s1 == 'p' else 'neg'}link")
+    # plain (non-choice) links: what is implied is implied by the closure as well
+    for sv in [("p", "p"), ("p", "n"), ("n", "p"), ("p", "p", "n"), ("p", "n", "p")]:
+        stms = [f"p{i + 1}(X) :- dom(X), {SIGNS[s]}p{i + 2}(X)." for i, s in enumerate(sv)]
+        stms += [f"u{j + 1}(X) :- p1(X), {SIGNS[s]}p{len(sv) + 1}(X)." for j, s in enumerate("pnd")]
+        _prog(out, stms, f"chain-plain-{'pos' if set(sv[:-1]) == {'p'} else 'neg'}link")
+    # composition of argument maps
+    d = ["{ p1(X,Y) } :- p2(Y,X).", "{ p2(X,Y) } :- r(X,Y), dom(Y), not q(X)."]
+    for lit in ["r(Y,X)", "r(X,Y)", "dom(X)", "dom(Y)", "not q(Y)", "not q(X)", "p2(Y,X), r(Y,X)"]:
+        _prog(out, d + [f"u(X,Y) :- p1(X,Y), {lit}."], "chain-argmap")
+    d = ["{ p1(X) } :- p2(X,X).", "{ p2(X,Y) } :- r(Y,X), dom(Y)."]
+    for lit in ["r(X,X)", "dom(X)", "r(X,Y), q(Y)"]:
+        _prog(out, d + [f"u(X) :- p1(X), {lit}."], "chain-argmap")
 
 
 # ---------------------------------------------------------------------------------------------------------------
@@ -262,12 +282,14 @@ def _samepred(out):
     rhs_args = ["X,Y", "_,Y", "X,_", "_,_", "Y,X", "X,X", "X,Z"]
     for args, s in itertools.product(rhs_args, "pnd"):
         guard = "dom(Z), " if (args == "X,Z" and s != "p") else ""
-        kind = "eq" if args in ("X,Y", "_,Y", "X,_", "_,_") else "diff"
-        _prog(out, [f"a(X,Y) :- p(X,Y), {guard}{SIGNS[s]}p({args})."], f"same-{kind}-{s}/body")
+        kind = f"eq-{s}" if args in ("X,Y", "_,Y", "X,_", "_,_") else "diff"
+        _prog(out, [f"a(X,Y) :- p(X,Y), {guard}{SIGNS[s]}p({args})."], f"same-{kind}")
     for args, s in itertools.product(["X,Y", "_,Y", "Y,X"], "pnd"):
-        kind = "eq" if args != "Y,X" else "diff"
-        _prog(out, [f"a :- e(X) : p(X,Y), {SIGNS[s]}p({args})."], f"same-{kind}-{s}/cond")
-        _prog(out, [f"a(S) :- S = #sum {{ 1,X,Y : p(X,Y), {SIGNS[s]}p({args}) }}."], f"same-{kind}-{s}/sum")
+        if args == "Y,X" and s == "d":
+            continue
+        kind = f"eq-{s}" if args != "Y,X" else "diff"
+        _prog(out, [_cond(f"p(X,Y), {SIGNS[s]}p({args})")], f"same-{kind}")
+        _prog(out, [f"a(S) :- S = #sum {{ 1,X,Y : p(X,Y), {SIGNS[s]}p({args}) }}."], f"same-{kind}")
     # the first literal is not positive
     for l1, l2 in [
         ("not p(X,Y)", "not p(_,Y)"),
@@ -277,14 +299,14 @@ def _samepred(out):
         ("not p(X,Y)", "not not p(X,Y)"),
         ("not not p(X,Y)", "not not p(_,Y)"),
     ]:
-        _prog(out, [f"a(X,Y) :- dom(X), dom(Y), {l1}, {l2}."], "same-neglhs/body")
+        _prog(out, [f"a(X,Y) :- dom(X), dom(Y), {l1}, {l2}."], "same-neglhs")
     # other arity is another predicate
-    _prog(out, ["a(X,Y) :- p(X,Y), p(X)."], "same-otherarity/body")
-    _prog(out, ["a(X,Y) :- p(X,Y), not p(X)."], "same-otherarity/body")
+    _prog(out, ["a(X,Y) :- p(X,Y), p(X)."], "same-otherarity")
+    _prog(out, ["a(X,Y) :- p(X,Y), not p(X)."], "same-otherarity")
     # defined predicate, several answer sets
     for s in "pnd":
-        _prog(out, ["{ p(X,Y) } :- r(X,Y).", f"a(X) :- p(X,Y), {SIGNS[s]}p(_,Y), q(Y)."], f"same-eq-{s}/body")
-        _prog(out, ["{ p(X,Y) } :- r(X,Y).", f":- p(X,Y), {SIGNS[s]}p(X,Y), q(Y)."], f"same-eq-{s}/constraint")
+        _prog(out, ["{ p(X,Y) } :- r(X,Y).", f"a(X) :- p(X,Y), {SIGNS[s]}p(_,Y), q(Y)."], f"same-eq-{s}")
+        _prog(out, ["{ p(X,Y) } :- r(X,Y).", f":- p(X,Y), {SIGNS[s]}p(X,Y), q(Y)."], f"same-eq-{s}")
 
 
 # ---------------------------------------------------------------------------------------------------------------
@@ -294,24 +316,27 @@ def _signs(out):
         tag = "fire" if sd == us else "miss"
         _prog(
             out,
-            [f"b(X) :- dom(X), {SIGNS[sd]}q(X).", f"a(X) :- b(X), e(X), {SIGNS[us]}q(X)."],
-            f"sign-dominated-{tag}:{sd}{us}/body",
+            [f"{{ b(X) }} :- dom(X), {SIGNS[sd]}q(X).", f"a(X) :- b(X), {SIGNS[us]}q(X)."],
+            f"sign-dominated-{tag}",
         )
         _prog(
             out,
-            [f"{{ b(X) }} :- dom(X), {SIGNS[sd]}q(X).", f"a :- e(X) : b(X), {SIGNS[us]}q(X)."],
-            f"sign-dominated-{tag}:{sd}{us}/cond",
+            [f"b(X) :- dom(X), t(X), {SIGNS[sd]}q(X).", _cond(f"b(X), {SIGNS[us]}q(X)")],
+            f"sign-dominated-{tag}",
         )
     for ls, sd in itertools.product("nd", "pnd"):
         _prog(
             out,
-            [f"b(X) :- dom(X), {SIGNS[sd]}q(X).", f"a(X) :- {SIGNS[ls]}b(X), dom(X), {SIGNS[sd]}q(X)."],
-            f"sign-dominating-neg:{ls}{sd}/body",
+            [f"{{ b(X) }} :- dom(X), {SIGNS[sd]}q(X).", f"a(X) :- {SIGNS[ls]}b(X), dom(X), {SIGNS[sd]}q(X)."],
+            "sign-dominating-neg",
         )
         _prog(
             out,
-            [f"b(X) :- dom(X), {SIGNS[sd]}q(X).", f"a(S) :- S = #count {{ X : {SIGNS[ls]}b(X), dom(X), {SIGNS[sd]}q(X) }}."],
-            f"sign-dominating-neg:{ls}{sd}/count",
+            [
+                f"b(X) :- dom(X), t(X), {SIGNS[sd]}q(X).",
+                f"a(S) :- S = #count {{ X : {SIGNS[ls]}b(X), dom(X), {SIGNS[sd]}q(X) }}.",
+            ],
+            "sign-dominating-neg",
         )
 
 
@@ -320,80 +345,69 @@ def _scopes(out):
     """F7: scopes must not leak"""
     d = ["b(X,Y) :- dom(X), r(X,Y)."]
     fixed = [
-        ("noleak-body-to-cond", "a(X) :- b(X,Y), e(Y) : dom(X)."),
-        ("noleak-condhead", "a :- dom(X) : b(X,Y)."),
-        ("noleak-cond-to-cond", "a :- e(X) : b(X,Y); e(X) : dom(X)."),
-        ("noleak-cond-to-body", "a(X) :- dom(X), e(Y) : b(X,Y)."),
-        ("noleak-cond-to-body", "a(X) :- dom(X), not e(Y) : b(X,Y)."),
-        ("fire-both", "a(X,Y) :- b(X,Y), dom(X), e(Z) : b(X,Z), dom(X)."),
-        ("fire-cond-only", "a(X) :- dom(X), not e(Y) : b(X,Y), dom(X)."),
-        ("fire-cond-only", "a(X) :- dom(X), e(Y) : b(X,Y), r(X,Y)."),
-        ("fire-two-conds", "a :- e(X) : b(X,Y), dom(X); not e(Y) : b(X,Y), r(X,Y)."),
+        ("noleak", "a(X) :- b(X,Y), z(Z), e(Z,Y) : dom(X)."),
+        ("noleak", "a :- dom(X) : b(X,Y)."),
+        ("noleak", "a(Z) :- z(Z), e(Z,X) : b(X,Y); e(Z,X) : dom(X)."),
+        ("noleak", "a(X,Z) :- z(Z), dom(X), e(Z,Y) : b(X,Y)."),
+        ("noleak", "a(X,Z) :- z(Z), dom(X), not e(Z,Y) : b(X,Y)."),
+        ("fire", "a(X,Y,V) :- b(X,Y), dom(X), z(V), e(V,Z) : b(X,Z), dom(X)."),
+        ("fire", "a(X,Z) :- z(Z), dom(X), not e(Z,Y) : b(X,Y), dom(X)."),
+        ("fire", "a(X,Z) :- z(Z), dom(X), e(Z,Y) : b(X,Y), r(X,Y)."),
+        ("fire", "a(Z) :- z(Z), e(Z,X) : b(X,Y), dom(X); not e(Z,Y) : b(X,Y), r(X,Y)."),
     ]
     for tag, u in fixed:
         _prog(out, d + [u], f"scope-{tag}")
     for f in ["#sum", "#min", "#max", "#count", "#sum+"]:
-        _prog(out, d + [f"a(S) :- S = {f} {{ Y,X : b(X,Y), dom(X) }}."], f"scope-fire-agg:{f}")
-        _prog(out, d + [f"a(X,S) :- dom(X), S = {f} {{ Y : b(X,Y) }}."], f"scope-noleak-agg-to-body:{f}")
-        _prog(
-            out,
-            d + [f"a(S) :- S = {f} {{ Y,X : b(X,Y), dom(X); X,n : dom(X), q(X) }}."],
-            f"scope-fire-one-element:{f}",
-        )
+        _prog(out, d + [f"a(S) :- S = {f} {{ Y,X : b(X,Y), dom(X) }}."], "scope-fire")
+        _prog(out, d + [f"a(X,S) :- dom(X), S = {f} {{ Y : b(X,Y) }}."], "scope-noleak")
     for f in ["#sum", "#max", "#count"]:
-        _prog(out, d + [f"a(X,S) :- b(X,_), S = {f} {{ Y : r(X,Y), dom(X) }}."], f"scope-noleak-body-to-agg:{f}")
-        _prog(out, d + [f"a(S) :- S = {f} {{ Y,X : b(X,Y); X,n : dom(X) }}."], f"scope-noleak-elem-to-elem:{f}")
+        _prog(out, d + [f"a(S) :- S = {f} {{ Y,X : b(X,Y), dom(X); X,n : dom(X), q(X) }}."], "scope-fire")
+        _prog(out, d + [f"a(X,S) :- b(X,_), S = {f} {{ Y : r(X,Y), dom(X) }}."], "scope-noleak")
+        _prog(out, d + [f"a(S) :- S = {f} {{ Y,X : b(X,Y); X,n : dom(X) }}."], "scope-noleak")
     for f in ["#sum", "#min"]:
-        _prog(out, d + [f"a :- 1 <= {f} {{ Y,X : b(X,Y), dom(X) }} <= 3."], f"scope-fire-agg-guards:{f}")
-        _prog(out, d + [f"a :- not 2 <= {f} {{ Y,X : b(X,Y), dom(X) }}."], f"scope-fire-agg-negated:{f}")
-        _prog(out, d + [f"a(X) :- dom(X), not 2 <= {f} {{ Y : b(X,Y) }}."], f"scope-noleak-agg-negated:{f}")
-    _prog(out, d + ["a :- 1 { e(X) : b(X,Y), dom(X) }."], "scope-fire-plain-agg")
-    _prog(out, d + ["a(X) :- dom(X), { e(Y) : b(X,Y) } 0."], "scope-noleak-plain-agg")
+        _prog(out, d + [f"a :- 1 <= {f} {{ Y,X : b(X,Y), dom(X) }} <= 3."], "scope-fire")
+        _prog(out, d + [f"a :- not 2 <= {f} {{ Y,X : b(X,Y), dom(X) }}."], "scope-fire")
+        _prog(out, d + [f"a(X) :- dom(X), not 2 <= {f} {{ Y : b(X,Y) }}."], "scope-noleak")
+    _prog(out, d + ["a(Z) :- z(Z), 1 { e(Z,X) : b(X,Y), dom(X) }."], "scope-fire")
+    _prog(out, d + ["a(X,Z) :- z(Z), dom(X), { e(Z,Y) : b(X,Y) } 0."], "scope-noleak")
     # head aggregate conditions are not cleaned, the body of the same rule is
     _prog(out, d + ["{ a(X,Y) : b(X,Y), dom(X) } :- q(Y)."], "scope-headcond-untouched")
-    _prog(out, d + ["{ a(X,Y) : q(Y) } :- b(X,Y), dom(X)."], "scope-fire-body-of-choice")
-    _prog(out, d + ["a(X,Y); g(X,Y) :- b(X,Y), dom(X)."], "scope-fire-body-of-disj")
-    _prog(out, d + ["{ sel(Y) } :- q(Y).", ":- b(X,Y), dom(X), sel(Y)."], "scope-fire-constraint")
-    _prog(out, d + ["{ sel(Y) } :- q(Y).", "#minimize { 1@0,X,Y : b(X,Y), dom(X), sel(Y) }."], "scope-fire-minimize")
-    _prog(out, d + ["{ sel(Y) } :- q(Y).", ":~ sel(Y), e(X) : b(X,Y), dom(X). [1@0,Y]"], "scope-fire-weak-cond")
+    _prog(out, d + ["{ a(X,Y) : q(Y) } :- b(X,Y), dom(X)."], "scope-fire")
+    _prog(out, d + ["a(X,Y); g(X,Y) :- b(X,Y), dom(X)."], "scope-fire")
+    _prog(out, d + ["{ sel(Y) } :- q(Y).", ":- b(X,Y), dom(X), sel(Y)."], "scope-fire")
+    _prog(out, d + ["{ sel(Y) } :- q(Y).", "#minimize { 1@0,X,Y : b(X,Y), dom(X), sel(Y) }."], "scope-fire")
+    _prog(out, d + ["{ sel(Y) } :- q(Y).", ":~ sel(Y), e(Y,X) : b(X,Y), dom(X). [1@0,Y]"], "scope-fire")
 
 
 # ---------------------------------------------------------------------------------------------------------------
 def _inputs(out):
     """F8: the dominating predicate is (also) declared as input"""
-    scopes = [
-        ("body", "a({hv}) :- {lits}."),
-        ("cond", "a :- e(X) : {lits}."),
-        ("max", "a(S) :- S = #max {{ X : {lits} }}."),
-    ]
-    for hk, d in [("plain", "b(X,Y) :- dom(X), r(X,Y)."), ("choice", "{ b(X,Y) } :- dom(X), r(X,Y).")]:
+
+    def scopes(hv, lits):
+        return [
+            f"a({hv}) :- {lits}.",
+            _cond(lits),
+            f"a(S) :- S = #max {{ X : {lits} }}.",
+        ]
+
+    for d in ("b(X,Y) :- dom(X), r(X,Y).", "{ b(X,Y) } :- dom(X), r(X,Y)."):
         for inn in ([], [("b", 2)]):
-            for sn, sc in scopes:
-                _prog(
-                    out,
-                    [d, sc.format(hv="X,Y", lits="b(X,Y), dom(X)")],
-                    f"input-{'declared' if inn else 'closed'}:{hk}/{sn}",
-                    inn,
-                )
+            for u in scopes("X,Y", "b(X,Y), dom(X)"):
+                _prog(out, [d, u], f"input-{'declared' if inn else 'closed'}", inn)
     chain = ["b(X) :- c(X), q(X).", "c(X) :- dom(X), s(X)."]
-    for inn, nm in (([], "closed"), ([("c", 1)], "mid-declared"), ([("b", 1)], "top-declared")):
+    for inn, nm in (([], "closed"), ([("c", 1)], "declared-mid"), ([("b", 1)], "declared")):
         for tgt in ("dom", "c"):
-            for sn, sc in scopes:
-                _prog(out, chain + [sc.format(hv="X", lits=f"b(X), {tgt}(X)")], f"input-chain-{nm}:{tgt}/{sn}", inn)
+            for u in scopes("X", f"b(X), {tgt}(X)"):
+                _prog(out, chain + [u], f"input-chain-{nm}", inn)
     # the dominated predicate is declared input and also defined: still implied
-    for sn, sc in scopes:
-        _prog(
-            out,
-            ["dom(X) :- s(X).", "b(X,Y) :- dom(X), r(X,Y).", sc.format(hv="X,Y", lits="b(X,Y), dom(X)")],
-            f"input-dominated-declared/{sn}",
-            [("dom", 1)],
-        )
-    # one of two defining predicates of a disjunctive / choice head is declared
-    for inn, nm in (([], "closed"), ([("g", 2)], "g-declared")):
+    for u in scopes("X,Y", "b(X,Y), dom(X)"):
+        _prog(out, ["dom(X) :- s(X).", "b(X,Y) :- dom(X), r(X,Y).", u], "input-dominated-declared", [("dom", 1)])
+    # one of two predicates of a choice head is declared
+    for inn, nm in (([], "closed"), ([("g", 2)], "declared")):
         _prog(
             out,
             ["{ b(X,Y); g(X,Y) } :- dom(X), r(X,Y).", "a(X,Y) :- b(X,Y), dom(X).", "c(X,Y) :- g(X,Y), dom(X)."],
-            f"input-{nm}:choice2/body",
+            f"input-{nm}",
             inn,
         )
 
@@ -414,21 +428,22 @@ def _booleans(out):
         ("cond", True, ["a :- q(X) : dom(X), {B}."]),
         ("condhead", True, ["a :- {B} : dom(X)."]),
         ("cond-only", False, ["a(X) :- dom(X), not q(X) : {B}."]),
-        ("sum", True, ["a(S) :- S = #sum { X : dom(X), {B}; 5 : {B} }."]),
+        ("sum", False, ["a(S) :- S = #sum { X : dom(X), {B}; 5 : {B} }."]),
         ("max", False, ["a(S) :- S = #max { X : dom(X); 7 : {B} }."]),
         ("min", False, ["a(S) :- S = #min { X : dom(X), q(X); 0 : {B}, dom(X) }."]),
         ("count", False, [sel, "a :- 1 #count { X : sel(X), {B} }."]),
-        ("two", False, ["a(X) :- dom(X), {B}, not q(X) : {B}."]),
     ]
-    for sn, withneg, stms in shapes:
+    for _, withneg, stms in shapes:
         for b in plain + (negs if withneg else []):
-            val = "true" if b.count("not") % 2 == (0 if "#true" in b else 1) else "false"
-            _prog(out, [s.replace("{B}", b) for s in stms], f"bool-{val}/{sn}")
+            val = "true" if b.count("not ") % 2 == (0 if "#true" in b else 1) else "false"
+            _prog(out, [s.replace("{B}", b) for s in stms], f"bool-{val}")
     _prog(out, ["#false :- dom(X), q(X).", "a(X) :- dom(X)."], "bool-head")
     _prog(out, ["#true :- dom(X), q(X).", "a(X) :- dom(X)."], "bool-head")
-    _prog(out, ["{ a(X) : #true; c(X) : #false } :- dom(X)."], "bool-headcond-untouched")
-    _prog(out, ["a(X) :- dom(X), #true, #false."], "bool-false/both")
-    _prog(out, ["b(X) :- dom(X), q(X), #true.", "a(X) :- b(X), q(X), not #false."], "bool-true/with-superseed")
+    _prog(out, ["{ a(X) : #true; c(X) : #false } :- dom(X)."], "bool-head")
+    _prog(out, ["a(X) :- dom(X), #true, #false."], "bool-false")
+    _prog(out, ["a(X) :- dom(X), #true, not q(X) : #true."], "bool-true")
+    _prog(out, ["a(X) :- dom(X), not q(X) : #true, #false."], "bool-false")
+    _prog(out, ["b(X) :- dom(X), q(X), #true.", "a(X) :- b(X), q(X), not #false."], "bool-true")
 
 
 # ---------------------------------------------------------------------------------------------------------------
@@ -439,7 +454,7 @@ def _recursion(out):
         ("miss", ["seq(T,0) :- start(T).", "foo(T,S) :- seq(T,S).", "seq(T,S+1) :- task(T), foo(T,S), S < 2."]),
         ("fire", ["t(X) :- b(X), dom(X).", "b(X) :- t(X), dom(X).", "t(X) :- e(X), dom(X)."]),
         ("fire", ["t(X) :- b(X), dom(X).", "b(X) :- t(X), dom(X).", "t(X) :- e(X)."]),
-        ("fire", ["t(X) :- not not t(X), dom(X).", "z(X) :- t(X), dom(X), not not t(X)."]),
+        ("fire", ["{ t(X) } :- not not t(X), dom(X).", "z(X) :- t(X), dom(X), not not t(X)."]),
         ("fire", ["t(X) :- dom(X), not b(X).", "b(X) :- dom(X), not t(X).", "z(X) :- t(X), dom(X), not b(X)."]),
         ("miss", ["t(X) :- dom(X), not b(X).", "b(X) :- dom(X), not t(X).", "z(X) :- t(X), not not b(X)."]),
         ("fire", ["t(X) :- dom(X), not b(X).", "b(X) :- dom(X), not t(X).", "z(X) :- b(X), not b(X), t(X)."]),
